@@ -248,6 +248,8 @@ class TrackedQueue(queue.Queue):
 class System:
     """A real provider + consumer pair with stage spies."""
 
+    serial = 0
+
     def __init__(self, deferred=False):
         from sdc11073.provider import subscriptionmgr_base
         from verif.mdibharness import Projector
@@ -257,6 +259,9 @@ class System:
         install_resolver_spy()
         self.deferred = deferred
         self.pair = Pair(deferred_dispatch=deferred)
+        # identifiers of subscriptions made later are unique over all systems of this process
+        System.serial += 1
+        DET_UUID.counter = System.serial * 1000000
         self.events: list = []       # stage events of the request in flight
         self.parsed: list = []       # ReceivedMessage objects of the request in flight
         self.projector = Projector([], [])
@@ -279,6 +284,9 @@ class System:
             worker = getattr(reg, '_worker', None)
             if worker is None:
                 raise MachineryError('sco registry without worker: cannot quiesce operations')
+            # no autonomous follow-up of an accepted operation while later requests are judged (the tutorial role
+            # provider reverts a delegated alert signal InvocationEffectiveTimeout seconds after SetAlertState)
+            reg.check_invocation_timeouts = lambda: None
             q = worker._operations_queue  # noqa: SLF001
             q.__class__ = TrackedQueue
             self.sco_queues.append(q)
@@ -328,7 +336,7 @@ class System:
             dispatcher._get_handlers[key] = wrap(fn)  # noqa: SLF001
 
     # -- quiescence
-    def quiesce(self, timeout=5.0):
+    def quiesce(self, timeout=20.0):
         """Wait until no operation is queued or executing and the consumer's deferred queue is drained."""
         end = time.time() + timeout
         while True:
@@ -990,11 +998,11 @@ def _marker_in_tree(root) -> bool:
 class Executor:
     """Runs concretisations on a System in a worker thread with a hard timeout."""
 
-    HARD_TIMEOUT = 10.0
+    HARD_TIMEOUT = 30.0
 
-    def __init__(self, deferred=False):
-        self.deferred = deferred
-        self.sysm = System(deferred)
+    def __init__(self):
+        self.systems = {'sync': System(False)}
+        self.current = 'sync'
         self.templates = None
         self.rebuilds = 0
         self._handler_cls = None
@@ -1013,14 +1021,26 @@ class Executor:
             self._handler_cls = QuietHandler
         return self._handler_cls
 
+    @property
+    def sysm(self) -> System:
+        return self.systems[self.current]
+
+    def select(self, key):
+        """'sync': consumer dispatches notifications in the calling thread; 'deferred': the consumer's default
+        DispatchKeyRegistryDeferred (queue + worker thread)."""
+        if key not in self.systems:
+            self.systems[key] = System(key == 'deferred')
+        self.current = key
+
     def rebuild(self):
         self.sysm.stop()
-        self.sysm = System(self.deferred)
+        self.systems[self.current] = System(self.current == 'deferred')
         self.rebuilds += 1
-        self.state_cache = {}
+        self.state_cache = {k: v for k, v in self.state_cache.items() if k[0] != self.current}
 
     def close(self):
-        self.sysm.stop()
+        for sysm in self.systems.values():
+            sysm.stop()
         self._jobs.put(None)
 
     # -- worker thread with hard timeout
@@ -1086,12 +1106,14 @@ class Executor:
         return info
 
     def state(self, endpoint):
-        if endpoint not in self.state_cache:
-            self.state_cache[endpoint] = self.sysm.project(endpoint)
-        return self.state_cache[endpoint]
+        key = (self.current, endpoint)
+        if key not in self.state_cache:
+            self.state_cache[key] = self.sysm.project(endpoint)
+        return self.state_cache[key]
 
-    def execute(self, tpl: Template, case: dict, conc: Concrete) -> dict:
+    def execute(self, tpl: Template, case: dict, conc: Concrete, v: int = 0) -> dict:
         """Run one concrete request; return the `actual` record."""
+        self.select('deferred' if tpl.endpoint == 'consumer' and v % 2 == 1 else 'sync')
         sysm = self.sysm
         endpoint = tpl.endpoint
         before = self.state(endpoint)
@@ -1111,6 +1133,7 @@ class Executor:
         actual = {'status': 0, 'body': 'none', 'escaped': 'none', 'spin': False, 'timeout': False,
                   'unbounded_read': False, 'expanded': False, 'resolver_calls': 0, 'socket_attempts': 0,
                   'state_same': True, 'handled': False, 'validated': False, 'detail': '', 'where': '',
+                  'dispatch': self.current,
                   'ms': int(elapsed * 1000)}
         if how == 'timeout':
             actual['timeout'] = True
@@ -1161,9 +1184,9 @@ class Executor:
             return actual
         after = sysm.project(endpoint)
         actual['state_same'] = after == before
-        self.state_cache[endpoint] = after
+        self.state_cache[(self.current, endpoint)] = after
         if endpoint == 'provider' and (actual['handled'] or not actual['state_same']):
-            self.state_cache.pop('consumer', None)   # notifications may have reached the consumer
+            self.state_cache.pop((self.current, 'consumer'), None)   # notifications may have reached the consumer
         if not actual['state_same']:
             sysm.accepted_mutations += 1
         accepted = actual['body'] == 'proper' and 200 <= actual['status'] < 300
